@@ -33,7 +33,8 @@ structure Req where
   addr : Nat
   count : Nat
   lat : Nat
-  lost : Bool := false      -- the scripted world: the peer does not answer this request (the reply is lost)
+  lost : Nat := 0           -- the scripted world: the peer does not answer the first `lost` transmissions of this
+                            -- request (the reply is lost; 0 = every transmission is answered)
   bcast : Bool := false     -- a broadcast: the client has `broadcast_enable` and the request addresses unit 0 (the
                             -- manager writes it and reads nothing; no unit answers it)
   deriving Repr, DecidableEq, Inhabited
@@ -48,6 +49,9 @@ structure Req where
       outerPerKey key – client lock whole, one manager lock per key
       none            – no lock at all
       sendOnly        – no client lock, one manager lock held around the send only
+      releaseClientLockInBackoff – as shipped, but the wait between two attempts of a transaction (the back-off of the
+                        retry loop) gives the client lock up and takes it again afterwards, the manager lock staying
+                        held (a `Condition.wait` on the client lock: seeded C15-10)
       broadcastOutside – as shipped for ordinary requests, but a broadcast leaves the client lock after the connect
                         and is written outside both locks (seeded C15-04)
       lockOnlyWhenCold – the client lock is taken (around the connect only) only by a caller that sees no socket; a
@@ -65,14 +69,16 @@ inductive LockScope where
   | leakOnFail
   | lockOnlyWhenCold
   | broadcastOutside
+  | releaseClientLockInBackoff
 
 inductive Op where
   | cacquire | preconnect | open | acquire | tid | connect | iopen | flush | send1 | send2 | wait | recv1 | recv2
-  | process | release | crelease | peek | bdone | btid
+  | process | release | crelease | peek | bdone | btid | backoff
   deriving DecidableEq, Repr, Inhabited
 
 def Op.name : Op → String
   | .cacquire => "acquire" | .crelease => "release" | .peek => "peek" | .bdone => "bdone" | .btid => "tid"
+  | .backoff => "backoff"
   | .preconnect => "connect" | .open => "open" | .iopen => "open" | .flush => "flush"
   | .acquire => "acquire" | .tid => "tid" | .connect => "connect"
   | .send1 => "send1" | .send2 => "send2" | .wait => "wait" | .recv1 => "recv" | .recv2 => "recv"
@@ -95,7 +101,7 @@ def coreOps (r : Req) : List Op := [.tid, .connect, .flush, .send1, .send2] ++ a
 /-- the operations of one call of `BaseModbusClient.execute` -/
 def txnOps (scope : LockScope) (r : Req) : List Op :=
   match scope with
-  | .whole | .outerPerKey _ | .leakOnFail =>
+  | .whole | .outerPerKey _ | .leakOnFail | .releaseClientLockInBackoff =>
       [.cacquire, .preconnect, .acquire] ++ coreOps r ++ [.release, .crelease]
   | .broadcastOutside =>
       if r.bcast then [.cacquire, .preconnect, .crelease, .btid, .connect, .flush, .send1, .send2, .bdone]
@@ -112,7 +118,8 @@ def clientKey : Nat := 0
 /-- which manager lock a transaction takes -/
 def lockKey (scope : LockScope) (r : Req) : Option Nat :=
   match scope with
-  | .whole | .connectOutside | .connectLocked | .sendOnly | .leakOnFail | .lockOnlyWhenCold | .broadcastOutside => some 1
+  | .whole | .connectOutside | .connectLocked | .sendOnly | .leakOnFail | .lockOnlyWhenCold | .broadcastOutside
+  | .releaseClientLockInBackoff => some 1
   | .perKey key | .outerPerKey key => some (1 + key r)
   | .none => Option.none
 
@@ -141,8 +148,20 @@ structure Thread where
   hdr : Bytes := []               -- read_min
   resp : Bytes := []              -- the response bytes handed to the framer
   full : Bool := false
+  attempt : Nat := 0              -- which transmission of the request is under way (0 = the first)
   results : List (Req × Nat × Result) := []   -- (request, its transaction id, what execute returned), oldest first
   deriving Inhabited
+
+/-- the client's retry configuration (`retries`, `retry_on_empty`; `backoff` = is there a wait between attempts —
+    always, in the code as it is: `backoff = kwargs.get('backoff', …) or 0.3`) -/
+structure Cfg where
+  retries : Nat := 3
+  retryOnEmpty : Bool := false
+  backoff : Bool := true
+  deriving Repr, DecidableEq, Inhabited
+
+/-- how many times a request is transmitted at most -/
+def Cfg.attempts (cfg : Cfg) : Nat := if cfg.retryOnEmpty then cfg.retries + 1 else 1
 
 structure Chunk where
   thread : Nat
@@ -159,6 +178,7 @@ structure State where
   nextConn : Nat := 0                  -- connections are numbered in the order they are opened
   attempts : Nat := 0                  -- number of `create_connection` calls so far
   connOk : Nat → Bool := fun _ => true -- the scripted world: does the k-th `create_connection` succeed
+  cfg : Cfg := {}                      -- the retry configuration of the client
   wire : List Chunk := []              -- what was written to the transport (any connection), in order
   pending : Nat → Bytes := fun _ => [] -- per connection: bytes the peer has not yet parsed into a frame
   stream : Nat → Bytes := fun _ => []  -- per connection: reply bytes not yet read
@@ -283,7 +303,30 @@ def noteResp (l : List Nat) (unit : Nat) (resp : Bytes) : List Nat :=
 
 /-- the scripted world: what the peer produces while this request is being written never arrives if the request is
     marked `lost`; and no unit answers a broadcast -/
-def answer (r : Req) (reply : Bytes) : Bytes := if r.lost || r.bcast then [] else reply
+def answer (r : Req) (attempt : Nat) (reply : Bytes) : Bytes :=
+  if decide (attempt < r.lost) || r.bcast then [] else reply
+
+/-- one more attempt of the same transaction: connect (the failed read has closed the connection), rebuild, flush,
+    send, poll, read -/
+def attemptOps (r : Req) : List Op :=
+  [.connect, .flush, .send1, .send2] ++ (List.replicate r.lat .wait ++ [.recv1, .recv2])
+
+/-- the wait between two attempts (`time.sleep(delay)`): a point at which other threads run.  The locks stay held —
+    except in the mutant that waits on a condition of the client lock -/
+def backoffOps (scope : LockScope) (cfg : Cfg) : List Op :=
+  if cfg.backoff then
+    (match scope with
+     | .releaseClientLockInBackoff => [.crelease, .backoff, .cacquire]
+     | _ => [.backoff])
+  else []
+
+/-- is the request transmitted once more after attempt `attempt` got nothing -/
+def Cfg.again (cfg : Cfg) (attempt : Nat) : Bool := cfg.retryOnEmpty && decide (attempt < cfg.retries)
+
+/-- what the retry loop of `execute` does after an attempt that got nothing (`retry_on_empty`: back off, then — while
+    retries remain — transmit again; the loop backs off after the last attempt too) -/
+def retryOps (scope : LockScope) (cfg : Cfg) (th : Thread) : List Op :=
+  if cfg.retryOnEmpty then backoffOps scope cfg ++ (if cfg.again th.attempt then attemptOps th.cur else []) else []
 
 /-! ### one scheduler step -/
 
@@ -305,6 +348,8 @@ def raiseOut (s : State) (t : Nat) (th : Thread) (ops : List Op) (op : Op) (e : 
 
 /-- thread `t` (local state `th`, request `th.cur`) performs operation `op`; `ops` is what follows it -/
 def stepOp (scope : LockScope) (s : State) (t : Nat) (th : Thread) (ops : List Op) : Op → State
+  | .backoff =>     -- `time.sleep(delay)` between two attempts: nothing changes, others may run
+    { s with threads := upd s.threads t { th with ops := ops }, trace := (t, .backoff) :: s.trace }
   | .bdone =>       -- a broadcast is over once it is written: the marker is the result
     { s with threads := upd s.threads t { th with ops := ops, results := th.results ++ [(th.cur, th.tidv, .bcastSent)] },
              trace := (t, .bdone) :: s.trace }
@@ -377,7 +422,7 @@ def stepOp (scope : LockScope) (s : State) (t : Nat) (th : Thread) (ops : List O
     { s with wire := s.wire ++ [⟨t, true, th.sconn, th.frame.take 7⟩],
              pending := upd s.pending th.sconn (serverWrite (s.pending th.sconn) (th.frame.take 7)).1,
              stream := upd s.stream th.sconn
-               (s.stream th.sconn ++ answer th.cur (serverWrite (s.pending th.sconn) (th.frame.take 7)).2),
+               (s.stream th.sconn ++ answer th.cur th.attempt (serverWrite (s.pending th.sconn) (th.frame.take 7)).2),
              threads := upd s.threads t { th with ops := ops }, trace := (t, .send1) :: s.trace }
   | .send2 =>
     match s.sock with
@@ -385,21 +430,21 @@ def stepOp (scope : LockScope) (s : State) (t : Nat) (th : Thread) (ops : List O
       { s with wire := s.wire ++ [⟨t, false, th.sconn, th.frame.drop 7⟩],
                pending := upd s.pending th.sconn (serverWrite (s.pending th.sconn) (th.frame.drop 7)).1,
                stream := upd s.stream th.sconn
-                 (s.stream th.sconn ++ answer th.cur (serverWrite (s.pending th.sconn) (th.frame.drop 7)).2),
+                 (s.stream th.sconn ++ answer th.cur th.attempt (serverWrite (s.pending th.sconn) (th.frame.drop 7)).2),
                threads := upd s.threads t { th with ops := ops }, trace := (t, .send2) :: s.trace }
     | Option.none =>
       if th.cur.bcast then    -- nothing is read after a broadcast: that the client was closed meanwhile goes unnoticed
         { s with wire := s.wire ++ [⟨t, false, th.sconn, th.frame.drop 7⟩],
                  pending := upd s.pending th.sconn (serverWrite (s.pending th.sconn) (th.frame.drop 7)).1,
                  stream := upd s.stream th.sconn
-                   (s.stream th.sconn ++ answer th.cur (serverWrite (s.pending th.sconn) (th.frame.drop 7)).2),
+                   (s.stream th.sconn ++ answer th.cur th.attempt (serverWrite (s.pending th.sconn) (th.frame.drop 7)).2),
                  threads := upd s.threads t { th with ops := ops }, trace := (t, .send2) :: s.trace }
       else                    -- `_recv`: `if not self.socket: raise ConnectionException` (somebody closed the client)
         raiseOut
           { s with wire := s.wire ++ [⟨t, false, th.sconn, th.frame.drop 7⟩],
                    pending := upd s.pending th.sconn (serverWrite (s.pending th.sconn) (th.frame.drop 7)).1,
                    stream := upd s.stream th.sconn
-                     (s.stream th.sconn ++ answer th.cur (serverWrite (s.pending th.sconn) (th.frame.drop 7)).2) }
+                     (s.stream th.sconn ++ answer th.cur th.attempt (serverWrite (s.pending th.sconn) (th.frame.drop 7)).2) }
           t th ops .send2 .modbusExc
   | .wait => { s with threads := upd s.threads t { th with ops := ops }, trace := (t, .wait) :: s.trace }
   | .recv1 =>
@@ -407,17 +452,27 @@ def stepOp (scope : LockScope) (s : State) (t : Nat) (th : Thread) (ops : List O
     | Option.none => raiseOut s t th ops .recv1 .type      -- `select.select([None], …)`
     | some c =>
       if th.full then      -- `recvPacket(None)`: whatever is there, no second read
-        { s with stream := upd s.stream c [], noResp := noteResp s.noResp th.cur.unit (s.stream c),
-                 threads := upd s.threads t { th with ops := ops.tail, resp := s.stream c },
-                 trace := (t, .recv1) :: s.trace }
+        if (s.stream c).isEmpty then     -- nothing: the retry loop takes over (the connection stays open)
+          { s with noResp := noteResp s.noResp th.cur.unit [],
+                   threads := upd s.threads t
+                     { th with ops := retryOps scope s.cfg th ++ ops.tail, resp := [], full := false,
+                               attempt := if s.cfg.again th.attempt then th.attempt + 1 else th.attempt },
+                   trace := (t, .recv1) :: s.trace }
+        else
+          { s with stream := upd s.stream c [], noResp := noteResp s.noResp th.cur.unit (s.stream c),
+                   threads := upd s.threads t { th with ops := ops.tail, resp := s.stream c },
+                   trace := (t, .recv1) :: s.trace }
       else if ((s.stream c).take 8).length = 8 then
         { s with stream := upd s.stream c ((s.stream c).drop 8),
                  threads := upd s.threads t { th with ops := ops, hdr := (s.stream c).take 8 },
                  trace := (t, .recv1) :: s.trace }
-      else               -- InvalidMessageReceivedException: close, empty response, no second read
+      else               -- InvalidMessageReceivedException: close, empty response, no second read; retry loop
         { s with stream := upd s.stream c ((s.stream c).drop 8), sock := Option.none,
                  noResp := noteResp s.noResp th.cur.unit [],
-                 threads := upd s.threads t { th with ops := ops.tail, hdr := (s.stream c).take 8, resp := [] },
+                 threads := upd s.threads t
+                   { th with ops := retryOps scope s.cfg th ++ ops.tail, hdr := (s.stream c).take 8, resp := [],
+                             full := false,
+                             attempt := if s.cfg.again th.attempt then th.attempt + 1 else th.attempt },
                  trace := (t, .recv1) :: s.trace }
   | .recv2 =>
     match s.sock with
@@ -444,7 +499,7 @@ def stepOp (scope : LockScope) (s : State) (t : Nat) (th : Thread) (ops : List O
 
 /-- the caller turns to its next request (plain code, nothing shared is touched) -/
 def stepBegin (scope : LockScope) (s : State) (t : Nat) (th : Thread) (r : Req) (rest : List Req) : State :=
-  { s with threads := upd s.threads t { th with todo := rest, cur := r, ops := txnOps scope r, tidv := 0 } }
+  { s with threads := upd s.threads t { th with todo := rest, cur := r, ops := txnOps scope r, tidv := 0, attempt := 0 } }
 
 /-- thread `t` performs its next operation (or stays put if parked / finished) -/
 def step (scope : LockScope) (s : State) (t : Nat) : State :=
@@ -462,9 +517,10 @@ def runSched (scope : LockScope) (s : State) : List Nat → State
 
 /-- all threads idle, nothing on the wire; thread `i` will issue `reqs i`; `connected` = the client was connected
     (connection 0) before the threads were started -/
-def init (reqs : Nat → List Req) (connected : Bool) (connOk : Nat → Bool := fun _ => true) : State :=
+def init (reqs : Nat → List Req) (connected : Bool) (connOk : Nat → Bool := fun _ => true) (cfg : Cfg := {}) : State :=
   { threads := fun i => { todo := reqs i }, locks := fun _ => Option.none,
-    sock := if connected then some 0 else Option.none, nextConn := if connected then 1 else 0, connOk := connOk }
+    sock := if connected then some 0 else Option.none, nextConn := if connected then 1 else 0, connOk := connOk,
+    cfg := cfg }
 
 /-! ### observations -/
 
@@ -492,22 +548,27 @@ def runnable (scope : LockScope) (s : State) (t : Nat) : Bool :=
     | some (o, _) => o == t
   | _ => true
 
-/-- a `connect` may turn into an `open` -/
+/-- a `connect` may turn into an `open`; a first read that gets nothing may turn into a back-off -/
 def Op.weight : Op → Nat
   | .connect => 2
   | .preconnect => 2
+  | .recv1 => 5
   | _ => 1
 
 def opsWeight (ops : List Op) : Nat := (ops.map Op.weight).sum
 
+/-- what one more attempt of request `r` costs at most (its operations and the back-off before it) -/
+def retryCost (r : Req) : Nat := 12 + r.lat
+
 /-- operations thread `t` still has to perform (an upper bound: a failed read skips the second read, a connect that
-    finds a socket does not open one) -/
-def Thread.work (scope : LockScope) (th : Thread) : Nat :=
-  opsWeight th.ops + (th.todo.map (fun r => 3 + opsWeight (txnOps scope r))).sum
+    finds a socket does not open one, not every retry is used) -/
+def Thread.work (scope : LockScope) (cfg : Cfg) (th : Thread) : Nat :=
+  opsWeight th.ops + (cfg.retries - th.attempt) * retryCost th.cur +
+  (th.todo.map (fun r => 3 + opsWeight (txnOps scope r) + cfg.retries * retryCost r)).sum
 
 def totalWork (scope : LockScope) (s : State) : Nat → Nat
   | 0 => 0
-  | n + 1 => totalWork scope s n + (s.threads n).work scope
+  | n + 1 => totalWork scope s n + (s.threads n).work scope s.cfg
 
 /-- harness granularity: perform the next operation of `t`, then the plain code up to its next yield point (loading
     the next request included) -/
